@@ -44,10 +44,10 @@ func DefaultMenu(c refmodel.Combo) Menu {
 	d := func(p string, o uint64) refmodel.Op { return refmodel.Op{T: "d", K: p, O: o} }
 	return Menu{
 		Blocks: [][]refmodel.Op{
-			{w("a", v[0], 0), w("ab", v[1], 0)},               // creates
-			{w("a", v[1], 0)},                                  // update with a size change (or create)
-			{d("a", 0), w("b", v[0], 1)},                       // delete by prefix, then create
-			{w("ab", v[0], 0), d("ab", 1), w("a", v[2], 2)},    // create/update then delete inside one block, then update
+			{w("a", v[0], 0), w("ab", v[1], 0)},             // creates
+			{w("a", v[1], 0)},                               // update with a size change (or create)
+			{d("a", 0), w("b", v[0], 1)},                    // delete by prefix, then create
+			{w("ab", v[0], 0), d("ab", 1), w("a", v[2], 2)}, // create/update then delete inside one block, then update
 		},
 		Partials: [][]refmodel.Op{
 			{w("a", v[1], 0)},
